@@ -836,6 +836,126 @@ theorem encompassing_contains (f : Freq) (args : List (Option EncArg))
     exact ⟨e0, rfl, hall p hmE⟩
 
 
+/-- unit-step `periods_from_until` of one frequency lists exactly the periods `a ≤ · ≤ b` of that frequency; for
+`a ≤ b` its first element is `a` and its last is `b`, for `b < a` it is empty -/
+theorem pfu_unit_spec (f : Freq) (a b : Int) :
+    ∃ l, periodsFromUntil ⟨f, a⟩ ⟨f, b⟩ 1 = .ok l ∧
+      (∀ p : Period, p ∈ l ↔ p.freq = f ∧ a ≤ p.serial ∧ p.serial ≤ b) ∧
+      (a ≤ b → l.head? = some ⟨f, a⟩ ∧ l.getLast? = some ⟨f, b⟩) ∧ (b < a → l = []) := by
+  refine ⟨(pyRange a (b + 1) 1).map (fun x => ⟨f, x⟩), by simp [periodsFromUntil, checkPeriods, bind, Except.bind, pure, Except.pure], ?_, ?_, ?_⟩
+  · intro p
+    simp only [List.mem_map, mem_pyRange _ _ _ _ (by decide : (1 : Int) ≠ 0)]
+    constructor
+    · rintro ⟨x, ⟨i, rfl, h1, _⟩, rfl⟩
+      have := h1 (by decide)
+      exact ⟨rfl, by simp; omega, by simp; omega⟩
+    · rintro ⟨hf, h1, h2⟩
+      refine ⟨p.serial, ⟨(p.serial - a).toNat, by omega, fun _ => by omega, fun h => by omega⟩, ?_⟩
+      cases p; simp_all
+  · intro h
+    have hn : pyRangeLen a (b + 1) 1 = (b - a + 1).toNat := by
+      unfold pyRangeLen; simp; rw [if_pos (by omega)]; omega
+    obtain ⟨n, hn'⟩ : ∃ n : Nat, (b - a + 1).toNat = n + 1 := ⟨(b - a).toNat, by omega⟩
+    constructor
+    · simp only [pyRange, hn, hn', List.map_map, List.head?_map]
+      rw [List.head?_range]; simp
+    · simp only [pyRange, hn, hn', List.map_map, List.getLast?_map]
+      rw [List.getLast?_range]; simp; omega
+  · intro h
+    have hn : pyRangeLen a (b + 1) 1 = 0 := by
+      unfold pyRangeLen; simp; intro h'; omega
+    simp [pyRange, hn]
+
+/-! ## 6b. Simulation frames: short span ↔ long span (`spans_from_short_span`, `spans_from_long_span`, `extend_span`) -/
+
+/-- **Short → long.** For one frequency and `a ≤ b` the call succeeds; the short span is exactly `a … b`, the long
+span exactly `a + max_lag … b + max_lead` (unit step, whatever the signs of the shifts; an inverted range is empty). -/
+theorem spansFromShort_spec (f : Freq) (a b lag lead : Int) (hab : a ≤ b) :
+    ∃ short long, spansFromShortSpan ⟨f, a⟩ ⟨f, b⟩ lag lead = .ok (short, long) ∧
+      (∀ p : Period, p ∈ short ↔ p.freq = f ∧ a ≤ p.serial ∧ p.serial ≤ b) ∧
+      (∀ p : Period, p ∈ long ↔ p.freq = f ∧ a + lag ≤ p.serial ∧ p.serial ≤ b + lead) := by
+  obtain ⟨s, hs, hs', hh, -⟩ := pfu_unit_spec f a b
+  obtain ⟨l, hl, hl', -, -⟩ := pfu_unit_spec f (a + lag) (b + lead)
+  refine ⟨s, l, ?_, hs', hl'⟩
+  simp only [spansFromShortSpan, hs, (hh hab).1, (hh hab).2, Period.add, hl, bind, Except.bind, pure, Except.pure]
+
+/-- **Long → short.** For `a ≤ b` the short span is exactly `a − max_lag … b − max_lead`. -/
+theorem spansFromLong_spec (f : Freq) (a b lag lead : Int) (hab : a ≤ b) :
+    ∃ short long, spansFromLongSpan ⟨f, a⟩ ⟨f, b⟩ lag lead = .ok (short, long) ∧
+      (∀ p : Period, p ∈ long ↔ p.freq = f ∧ a ≤ p.serial ∧ p.serial ≤ b) ∧
+      (∀ p : Period, p ∈ short ↔ p.freq = f ∧ a - lag ≤ p.serial ∧ p.serial ≤ b - lead) := by
+  obtain ⟨l, hl, hl', hh, -⟩ := pfu_unit_spec f a b
+  obtain ⟨s, hs, hs', -, -⟩ := pfu_unit_spec f (a + -lag) (b + -lead)
+  refine ⟨s, l, ?_, hl', fun p => ?_⟩
+  · simp only [spansFromLongSpan, hl, (hh hab).1, (hh hab).2, Period.subInt, Period.add, hs, bind, Except.bind, pure, Except.pure]
+  · rw [hs']; constructor <;> rintro ⟨h, h1, h2⟩ <;> exact ⟨h, by omega, by omega⟩
+
+/-- **Rejection.** An inverted pair (`last < first`) is rejected by both constructions (the code indexes the empty
+re-bound tuple: `IndexError`), as are mixed frequencies. Nothing is returned for them. -/
+theorem spansFrom_inverted_rejected (f : Freq) (a b lag lead : Int) (hab : b < a) :
+    spansFromShortSpan ⟨f, a⟩ ⟨f, b⟩ lag lead = .error .badInput ∧
+    spansFromLongSpan ⟨f, a⟩ ⟨f, b⟩ lag lead = .error .badInput := by
+  obtain ⟨s, hs, -, -, he⟩ := pfu_unit_spec f a b
+  have := he hab; subst this
+  simp [spansFromShortSpan, spansFromLongSpan, hs, bind, Except.bind, throw, throwThe, MonadExceptOf.throw]
+
+theorem spansFrom_mixed_rejected (p q : Period) (h : p.freq ≠ q.freq) (lag lead : Int) :
+    spansFromShortSpan p q lag lead = .error .mixedFreq ∧ spansFromLongSpan p q lag lead = .error .mixedFreq := by
+  simp [spansFromShortSpan, spansFromLongSpan, periodsFromUntil, checkPeriods, h, bind, Except.bind, throw, throwThe,
+    MonadExceptOf.throw]
+
+/-- **The two constructions are inverse to each other**: going from the short span `a … b` to the long one and back
+with the same `max_lag`, `max_lead` (fed the first and last period of the long span) returns the same pair of spans,
+whenever neither span is inverted. -/
+theorem spansFromLong_spansFromShort (f : Freq) (a b lag lead : Int) (hab : a ≤ b) (hl : a + lag ≤ b + lead) :
+    spansFromLongSpan ((⟨f, a⟩ : Period).add lag) ((⟨f, b⟩ : Period).add lead) lag lead
+      = spansFromShortSpan ⟨f, a⟩ ⟨f, b⟩ lag lead := by
+  have e1 : a + lag + -lag = a := by omega
+  have e2 : b + lead + -lead = b := by omega
+  obtain ⟨s, hs, -, hh, -⟩ := pfu_unit_spec f a b
+  obtain ⟨l, hl', -, hh', -⟩ := pfu_unit_spec f (a + lag) (b + lead)
+  simp only [spansFromLongSpan, spansFromShortSpan, Period.subInt, Period.add, e1, e2, hs, hl', (hh hab).1, (hh hab).2,
+    (hh' hl).1, (hh' hl).2, bind, Except.bind]
+
+/-- …and the other way round. -/
+theorem spansFromShort_spansFromLong (f : Freq) (a b lag lead : Int) (hab : a ≤ b) (hs : a - lag ≤ b - lead) :
+    spansFromShortSpan ((⟨f, a⟩ : Period).subInt lag) ((⟨f, b⟩ : Period).subInt lead) lag lead
+      = spansFromLongSpan ⟨f, a⟩ ⟨f, b⟩ lag lead := by
+  have e1 : a + -lag + lag = a := by omega
+  have e2 : b + -lead + lead = b := by omega
+  obtain ⟨l, hl, -, hh, -⟩ := pfu_unit_spec f a b
+  obtain ⟨s, hs', -, hh', -⟩ := pfu_unit_spec f (a + -lag) (b + -lead)
+  simp only [spansFromLongSpan, spansFromShortSpan, Period.subInt, Period.add, e1, e2, hs', hl, (hh hab).1, (hh hab).2,
+    (hh' (by omega)).1, (hh' (by omega)).2, bind, Except.bind]
+
+/-- **The long span contains the short one** whenever the lag is not positive and the lead not negative (the way the
+simulators call it: `max_lag ≤ 0 ≤ max_lead`). -/
+theorem short_subset_long (f : Freq) (a b lag lead : Int) (h1 : lag ≤ 0) (h2 : 0 ≤ lead) (short long : List Period)
+    (h : spansFromShortSpan ⟨f, a⟩ ⟨f, b⟩ lag lead = .ok (short, long)) (p : Period) (hp : p ∈ short) : p ∈ long := by
+  rcases Int.lt_or_le b a with hab | hab
+  · rw [(spansFrom_inverted_rejected f a b lag lead hab).1] at h; cases h
+  · obtain ⟨s, l, e, hs, hl⟩ := spansFromShort_spec f a b lag lead hab
+    rw [e] at h; cases h
+    have := (hs p).mp hp
+    exact (hl p).mpr ⟨this.1, by omega, by omega⟩
+
+/-- **`extend_span`**: the start moves by `min_shift` exactly when an initial condition is prepended, the end by
+`max_shift` exactly when a terminal condition is appended; frequencies are kept; with both switches off it is the
+identity. -/
+theorem extendSpan_spec (a b : Period) (lo hi : Int) (pre app : Bool) :
+    (extendSpan a b lo hi pre app).1.freq = a.freq ∧ (extendSpan a b lo hi pre app).2.freq = b.freq ∧
+    (extendSpan a b lo hi pre app).1.serial = a.serial + (if pre then lo else 0) ∧
+    (extendSpan a b lo hi pre app).2.serial = b.serial + (if app then hi else 0) ∧
+    extendSpan a b lo hi false false = (a, b) := by
+  refine ⟨rfl, rfl, rfl, rfl, ?_⟩
+  cases a; cases b; simp [extendSpan, Period.add]
+
+example : spansFromShortSpan ⟨.Q, 10⟩ ⟨.Q, 12⟩ (-2) 1
+    = .ok ([⟨.Q, 10⟩, ⟨.Q, 11⟩, ⟨.Q, 12⟩], [⟨.Q, 8⟩, ⟨.Q, 9⟩, ⟨.Q, 10⟩, ⟨.Q, 11⟩, ⟨.Q, 12⟩, ⟨.Q, 13⟩]) := by decide
+example : spansFromLongSpan ⟨.Q, 8⟩ ⟨.Q, 13⟩ (-2) 1
+    = .ok ([⟨.Q, 10⟩, ⟨.Q, 11⟩, ⟨.Q, 12⟩], [⟨.Q, 8⟩, ⟨.Q, 9⟩, ⟨.Q, 10⟩, ⟨.Q, 11⟩, ⟨.Q, 12⟩, ⟨.Q, 13⟩]) := by decide
+example : spansFromShortSpan ⟨.Q, 12⟩ ⟨.Q, 10⟩ 0 0 = .error .badInput := by decide
+
 /-! ## 7. Non-vacuity: concrete values meet the hypotheses and the models compute -/
 example : encompassing [some (.seq [some ⟨.Q, 8085⟩, none, some ⟨.Q, 8080⟩]), none, some (.attrs (some ⟨.Q, 8090⟩) (some ⟨.Q, 8082⟩))]
     = .ok (⟨.res ⟨.Q, 8080⟩, .res ⟨.Q, 8085⟩, 1⟩, some ⟨.Q, 8080⟩, some ⟨.Q, 8085⟩) := by decide
